@@ -198,6 +198,12 @@ def core_models(I, st, caller, func, args, argtys, dest_ty):
                     v = args[1] if idx == 1 else args[0]
                 outs.append(Outcome("return", v, s2))
         return outs
+    # ---- comparisons through a reference forward to the referent: impl<A: PartialEq<B>> PartialEq<&B> for &A etc.
+    m = re.match(r"^<&(?:mut )?(.*) as (PartialEq|PartialOrd|Ord)(<.*>)?>::(\w+)$", f)
+    if m and norm_type(m.group(1)).lstrip("&") not in INT_TYPES and len(args) == 2:
+        inner = [I.load(st, a) if isinstance(a, Ref) else a for a in args]
+        if all(isinstance(a, Ref) for a in inner):
+            return I.dispatch_call(st, caller, "<%s as %s>::%s" % (m.group(1), m.group(2), m.group(4)), inner, [None, None], dest_ty)
     # ---- provided methods of PartialOrd on user types: defined through the type's own partial_cmp body
     m = re.match(r"^<(.*) as PartialOrd(<.*>)?>::(lt|le|gt|ge)$", f)
     if m and norm_type(m.group(1)).lstrip("&") not in INT_TYPES:
